@@ -95,7 +95,7 @@ func (r *replayer) prepare() error {
 		}
 	}
 	for _, d := range pkgDirs {
-		dir := filepath.Join("/repo", d)
+		dir := filepath.Join(repoRoot, d)
 		var sb strings.Builder
 		fmt.Fprintf(&sb, "package %s\n\nimport \"testing\"\n\nfunc TestVReplay(t *testing.T) { vReplayMain(t, map[string]func(){\n", pkgNameOf(d))
 		sort.Strings(names[dir])
@@ -129,7 +129,7 @@ func (r *replayer) runNative(pkgDir string, files []string) (string, error) {
 		target = "."
 	}
 	cmd := exec.CommandContext(ctx, "go", "test", "-vet=off", "-count=1", "-overlay", r.overlay, "-run", "^TestVReplay$", "-v", target)
-	cmd.Dir = "/repo"
+	cmd.Dir = repoRoot
 	cmd.Env = append(os.Environ(), "GOFLAGS=-mod=mod", "GOPROXY=off", "GOSUMDB=off", "GOTOOLCHAIN=local",
 		"GOSMT_REPLAY="+strings.Join(files, ","))
 	out, err := cmd.CombinedOutput()
